@@ -26,6 +26,14 @@ def cov_int(x):
     return int(round(float(x) * SCALE))
 
 
+def safe_cov(fn):
+    """coverage getter that raises is reported as the out-of-range figure -1"""
+    try:
+        return cov_int(q(fn))
+    except Exception:
+        return -1
+
+
 def rng_py(r):
     return r[0] if r[0] == r[1] else [r[0], r[1]]
 
@@ -151,14 +159,14 @@ class CovSession:
         models = [cg.get_model() for _, cg in self.insts]
         for (sname, cg), m in zip(self.insts, models):
             d = self.model_data(m)
-            d["cov"] = cov_int(q(cg.get_inst_coverage))
-            d["tcov"] = cov_int(q(cg.get_coverage))
-            d["cpcov"] = {cp.name: cov_int(cp.get_inst_coverage()) for cp in m.coverpoint_l}
+            d["cov"] = safe_cov(cg.get_inst_coverage)
+            d["tcov"] = safe_cov(cg.get_coverage)
+            d["cpcov"] = {cp.name: safe_cov(cp.get_inst_coverage) for cp in m.coverpoint_l}
             insts.append(d)
         for t in CoverageRegistry.inst().covergroup_types():
             d = self.model_data(t)
             d["members"] = [models.index(i) + 1 for i in t.cg_inst_l if i in models]
-            d["cov"] = cov_int(q(t.get_inst_coverage))
+            d["cov"] = safe_cov(t.get_inst_coverage)
             types.append(d)
         return {"insts": insts, "types": types}
 
@@ -352,6 +360,9 @@ def split_proj(proj):
 
 
 def run_scenario(scn, seed=0):
+    import random as _random
+    import zlib
+    _random.seed(zlib.crc32(scn["id"].encode()) ^ 0x5eed)     # Python's global generator seeds every default RandState
     s = CovSession(scn)
     W = {"shapes": {n: flat_shape(sh) for n, sh in scn["shapes"].items()}}
     try:
